@@ -102,10 +102,11 @@ Proof.
       * destruct (found_links _ _ _ _ I Ep) as (em & Esp & Esz & Hm & Hmid). rewrite Esp, Esz.
         destruct (i_bounds _ _ I m Hm) as (Hm0 & Hmsz & _).
         set (bytes := if cnt =? -1 then r_sz m - off else cnt).
+        destruct (Z.ltb_spec off 0) as [Bn|Bn].
+        { rewrite !orb_true_r. split; assumption. }
         destruct (Z.ltb_spec bytes 0) as [B0|B0]; cbn [orb]; [split; assumption|].
         destruct (Z.leb_spec (off + cnt) (r_sz m)) as [B1|B1]; cbn [negb orb]; [|split; assumption].
-        destruct (Z.ltb_spec (r_off m + off) 0); [lia|].
-        destruct (Z.ltb_spec off 0); [lia|]. cbn [fst snd].
+        destruct (Z.ltb_spec (r_off m + off) 0); [lia|]. cbn [fst snd].
         split; [|cbn; assumption].
         apply inv_slice; try assumption.
         -- unfold link. rewrite Hmid. assumption.
